@@ -222,7 +222,7 @@ pub fn run(cx: &mut Cx) {
         ensure!(panics(|| r.random_bool(p)).is_some(), "random_bool({p}) does not panic: the precondition could be weaker");
         Ok(())
     });
-    cx.check("core.rs::Exp::sample (f64_nonneg read as: >= 0 and not NaN)", |rng| {
+    cx.check("core.rs::Exp::sample (stub claims nothing; documented: positive lambda samples >= 0, not NaN)", |rng| {
         use rand_distr::Distribution;
         let mut r = rand::rngs::SmallRng::seed_from_u64(rng.u64());
         let lambda = match rng.below(4) { 0 => 1.0, 1 => f64::MIN_POSITIVE, 2 => 1e300, _ => (1 + rng.u32()) as f64 / 1000.0 };
@@ -297,7 +297,7 @@ pub fn run(cx: &mut Cx) {
             task_waker(&rt),
             root_waker,
         ];
-        for name in ["netclose_task.rs::Waker::{will_wake, clone} + Context::waker", "nettcp_task.rs::Waker::{will_wake, clone} + Context::waker"] {
+        for name in ["netclose_task.rs::Waker::{will_wake, clone} + Context::waker", "nettcp_task.rs::Waker::{will_wake, clone} + Context::waker", "nettable_task.rs::Waker::{will_wake, clone} + Context::waker"] {
             cx.want(&["same", "different"]).check(name, |rng| {
                 let (x, y, z) = (&pool[rng.below(pool.len())], &pool[rng.below(pool.len())], &pool[rng.below(pool.len())]);
                 hit(if x.will_wake(y) { "same" } else { "different" });
